@@ -55,6 +55,9 @@ extern "C" {
     double eq_q_when[EQ_M];
 }
 double current_dtime = 0;
+#ifndef CV_NATIVE
+extern "C" double eq_nondet_double(void) { double any; return any; }      // uninitialised = arbitrary for the verifier
+#endif
 
 static int eq_arg_code(const void *p);
 static void eq_handler_record(int f, void *arg)
